@@ -38,6 +38,7 @@ def run(ctx):
     g = st["g"]
     n_groups = 0
     n_fns = 0
+    n_sem = n_sem_runs = 0
     for crate in ("wow_login_messages", "wow_world_messages"):
         F = g.f(crate)
         groups = {}
@@ -70,9 +71,21 @@ def run(ctx):
                 if other != ref:
                     d = first_diff(ref, other)
                     fn = members[fl]
-                    ctx.violate("twin.flavours", f"{gpath(crate, fn['path'])}|vs-sync",
-                                f"{fn['path']} differs from its blocking sibling {members['sync']['name']} beyond await/prefix/I-O trait: {d}",
-                                fn["file"], fn["line"])
+                    # not the same tree: the copies are interpreted on the same abstract inputs and must be indistinguishable
+                    why = None
+                    try:
+                        from ..sibsem import sibling_semantic
+                        from ..minieval import Unsupported, Panic
+                        why, runs = sibling_semantic(g, crate, members["sync"], fn)
+                        if why is None:
+                            n_sem += 1
+                            n_sem_runs += runs
+                            continue
+                        why = f"{fn['path']} and its blocking sibling {members['sync']['name']} are told apart {why}"
+                    except (Unsupported, Panic, KeyError, TypeError, ValueError, IndexError, AttributeError, RecursionError) as e:
+                        why = (f"{fn['path']} differs from its blocking sibling {members['sync']['name']} beyond await/prefix/I-O trait: {d} "
+                               f"(and the pair could not be compared by interpretation: {type(e).__name__}: {str(e)[:80]})")
+                    ctx.violate("twin.flavours", f"{gpath(crate, fn['path'])}|vs-sync", why, fn["file"], fn["line"])
             if n_groups <= 3:
                 ctx.sample({"siblings": {k: v["path"] for k, v in members.items()}})
     # primitive siblings: same width / endianness / type
@@ -112,7 +125,7 @@ def run(ctx):
                     owner = m["path"]
                     ctx.violate("io.exact-only", f"{gpath(crate, owner)}|{trait}::{meth}",
                                 f"{owner} calls {trait}::{meth} on the transport ({ga.split(', ')[0]}): its result depends on how the bytes are chunked; only read_exact-class calls are chunk-insensitive")
-    ctx.rule("twin.flavours", n_groups + n_prim, floor=TRIPLE_FLOOR, note=f"{n_groups} sibling groups ({n_fns} async copies compared) + {n_prim} primitive readers")
+    ctx.rule("twin.flavours", n_groups + n_prim, floor=TRIPLE_FLOOR, note=f"{n_groups} sibling groups ({n_fns} async copies compared; {n_sem} of them not tree-equal and decided by interpretation on {n_sem_runs} shared abstract inputs) + {n_prim} primitive readers")
     ctx.rule("io.exact-only", n_io, floor=IO_FLOOR, note="trait-method calls on transport-typed receivers (MIR, resolved)")
     ctx.assume("std/tokio/async-std read_exact loops until the buffer is full or fails with UnexpectedEof regardless of chunking and Pending (documented contract)")
     ctx.assume("tokio's read_u32_le-class methods are built on read_exact (documented)")
